@@ -435,6 +435,8 @@ class Interp:
     def truth(self, c):
         if isinstance(c, bool):
             return c
+        if getattr(c, "_fd_cond", False):
+            return None
         if c is None:
             return False
         if _is_conc(c):
